@@ -598,10 +598,18 @@ def check_c07(ctx):
                 if name in gained:
                     someone_gained = True
                 continue
+            bl_fn = getattr(ctx.truth, 'blacklisted', None)
+            state_fn = getattr(ctx.truth, 'state_of', None)
+            # (master level: blacklisted by the patterns the master was
+            # shown, not by the flag it set on the instance; healthy only if
+            # the state the master recorded agrees)
             protected = (
                 pre.server is not None and
                 ctx.pre_srv.get(pre.server, (None,))[0] == 'up' and
-                not pre.blacklisted and
+                (state_fn is None or
+                 state_fn(pre.server) in (None, 'up')) and
+                not (bl_fn(name) if bl_fn is not None
+                     else pre.blacklisted) and
                 _within_cap(ctx, rank, name) and
                 _identity_valid(ctx, name, pre) and
                 not pre.renew and
